@@ -192,11 +192,21 @@ namespace vh
       micm::Species sp("a");
       sp.SetProperty<double>(micm::property_keys::GAS_DIFFUSION_COEFFICIENT, 1e-5);
       sp.SetProperty<double>(micm::property_keys::MOLECULAR_WEIGHT, 0.05);
+      // optional: a bit mask saying which of the reactants are parameterized species (third bodies); the documented
+      // error counts REACTANTS, whatever their kind
+      std::size_t tbmask = t.nat();   // absent tokens read as 0
+      bool viaCtor = t.nat() != 0;
       std::vector<micm::Species> reactants;
       for (std::size_t i = 0; i < nr; ++i)
-        reactants.push_back(micm::Species("r" + std::to_string(i)));
-      micm::Process p = micm::Process::Create().SetReactants(reactants).SetProducts({}).SetRateConstant(
-          micm::SurfaceRateConstant({ .label_ = "s", .species_ = sp }));
+      {
+        micm::Species r("r" + std::to_string(i));
+        if ((tbmask >> i) & 1)
+          r.SetThirdBody();
+        reactants.push_back(r);
+      }
+      micm::Process p = viaCtor ? micm::Process(reactants, {}, std::make_unique<micm::SurfaceRateConstant>(micm::SurfaceRateConstantParameters{ .label_ = "s", .species_ = sp }), micm::Phase())
+                                : micm::Process(micm::Process::Create().SetReactants(reactants).SetProducts({}).SetRateConstant(
+                                      micm::SurfaceRateConstant({ .label_ = "s", .species_ = sp })));
       return "errc ok reactants=" + std::to_string(p.reactants_.size());
     }
     if (which == "property")
